@@ -25,6 +25,11 @@ theorem walls_near_bounds (its : List LItem) (lo hi : ℚ) (ns ls : ℚ) (h : it
   intro o all
   exact walls_near_bounds' its lo hi ns ls h zs hz hfeas
 
+/-- the bounds are stiff: the wall weight extracted from the source is at least the 10¹⁰ the property's "inside the
+bounds to within 0.5 rounding" presupposes (the predicates evaluated on the implementation use 10¹⁰ as a fixed reference) -/
+theorem wall_weight_large : refWallWeight ≤ Gen.wallWeight := by
+  unfold refWallWeight Gen.wallWeight; norm_num
+
 /-- the first (last) item is a hard half-width away from its wall, like every other gap of the chain -/
 theorem wall_gaps_kept (o : ROpts) (its : List LItem) :
     SepBy Layout.eps (chainGaps o its) (solve Layout.eps (chainVars o its) (chainGaps o its)) :=
